@@ -1,7 +1,98 @@
 import SshAudit.Driver.WireOps
+import SshAudit.Driver.Tables
+import SshAudit.Model.Version
 namespace SshAudit.Driver
+open SshAudit SshAudit.Version
 
-/-- line-protocol operations of the Version model (stub; filled in when the model lands) -/
-def versionOp (_op : String) (_args : List String) : Option J := none
+/-- list of optional text tokens: `,`-joined `decOptStr` tokens; `_` is the empty list -/
+def decOptStrList (tok : String) : Option (List (Option Str)) :=
+  if tok = "_" then some [] else (tok.splitOn ",").mapM decOptStr
+
+/-- `~` = None, `1` = True, `0` = False -/
+def decOptBool (tok : String) : Option (Option Bool) :=
+  if tok = "~" then some none else (decBool tok).map some
+
+def jostr (o : Option Str) : J := J.ofOpt .str o
+
+def jsoftware (s : Software) : J := .obj [
+  ("vendor", jostr s.vendor), ("product", .str s.product), ("version", .str s.version),
+  ("patch", jostr s.patch), ("os", jostr s.os)]
+
+def jtf (tf : Timeframe) : J := .arr (tf.map fun (p, slots) => .arr [.str p, .arr (slots.map jostr)])
+
+def mkSw (product version : Str) (patch : Option Str) : Software := ⟨none, product, version, patch, none⟩
+
+def db2Items (kex key enc mac : List Str) : List (Str × List Str) :=
+  [("kex".toList, kex), ("key".toList, key), ("enc".toList, enc), ("mac".toList, mac)]
+
+/-- every version string of the rating databases, per product (for the order-safety report) -/
+def dbVersionsOf (db : DB) : List (Str × Str) :=
+  (db.flatMap fun (_, es) => es.flatMap fun e => (DBm.versions e).flatMap fun o =>
+    match o with
+    | none => []
+    | some v => (Text.splitOn ',' v).filterMap fun d =>
+        let (p, ver, _) := getSshVersion d
+        if ver = [] then none else some (p, ver))
+
+def versionOp (op : String) (args : List String) : Option J :=
+  match op, args with
+  | "ver.cmpnum", [a, b] => do
+      let a ← decStr a; let b ← decStr b
+      pure (jok (.num (compareVersionNumbers a b)))
+  | "ver.split", [o] => do
+      let o ← decStr o
+      let r := splitOther o
+      pure (jok (.arr [.str r.1, .str r.2]))
+  | "ver.compare", [prod, ver, patch, other] => do
+      let prod ← decStr prod; let ver ← decStr ver; let patch ← decOptStr patch
+      let other ← decOptStr other
+      pure (jok (.num (compareVersionO (mkSw prod ver patch) (match other with | none => .none | some s => .str s))))
+  | "ver.compare.sw", [prod, ver, patch, over, opatch] => do
+      let prod ← decStr prod; let ver ← decStr ver; let patch ← decOptStr patch
+      let over ← decStr over; let opatch ← decOptStr opatch
+      pure (jok (.num (compareVersionO (mkSw prod ver patch) (.soft (mkSw prod over opatch)))))
+  | "ver.between", [prod, ver, patch, vfrom, vtill] => do
+      let prod ← decStr prod; let ver ← decStr ver; let patch ← decOptStr patch
+      let vfrom ← decStr vfrom; let vtill ← decStr vtill
+      pure (jok (.bool (betweenVersions (mkSw prod ver patch) vfrom vtill)))
+  | "ver.parse", [sw, comments] => do
+      let sw ← decOptStr sw; let comments ← decOptStr comments
+      pure (jok (J.ofOpt jsoftware (parse sw comments)))
+  | "ver.os", [c] => do
+      let c ← decOptStr c
+      pure (jok (jostr (extractOs c)))
+  | "ver.display", [vendor, prod, ver, patch, os, full] => do
+      let vendor ← decOptStr vendor; let prod ← decStr prod; let ver ← decStr ver
+      let patch ← decOptStr patch; let os ← decOptStr os; let full ← decBool full
+      pure (jok (.str (display ⟨vendor, prod, ver, patch, os⟩ full)))
+  | "ver.sshver", [d] => do
+      let d ← decStr d
+      let (p, v, c) := getSshVersion d
+      pure (jok (.arr [.str p, .str v, .bool c]))
+  | "ver.since", [vs] => do
+      let vs ← decOptStrList vs
+      pure (jok (jostr (getSinceText vs)))
+  | "ver.filter", [prod, ver, patch, unknown, forServer, v0] => do
+      -- product `~` = software None
+      let prod ← decOptStr prod; let ver ← decStr ver; let patch ← decOptStr patch
+      let unknown ← decBool unknown; let forServer ← decBool forServer; let v0 ← decStr v0
+      pure (jok (.bool (versionFilter (prod.map fun p => mkSw p ver patch) unknown forServer v0)))
+  | "ver.dbtf", [fs, sshv, a, b, c, d] => do
+      -- get_ssh_timeframe over the generated databases: sshv 2: kex key enc mac; sshv 1: key enc aut (d ignored)
+      let fs ← decOptBool fs
+      let a ← decStrs a; let b ← decStrs b; let c ← decStrs c; let d ← decStrs d
+      if sshv = "2" then pure (jok (jtf (sshTimeframe [] Gen.ssh2db (db2Items a b c d) fs)))
+      else if sshv = "1" then
+        pure (jok (jtf (sshTimeframe [] Gen.ssh1db [("key".toList, a), ("enc".toList, b), ("aut".toList, c)] fs)))
+      else none
+  | "ver.dbversions", [] =>
+      pure (jok (.arr ((dbVersionsOf Gen.ssh2db ++ dbVersionsOf Gen.ssh1db).map fun (p, v) => .arr [.str p, .str v])))
+  | "ver.tf", fs :: vss => do
+      -- Timeframe().update(v, fs) for each v in order; answer: storage + get_from/get_till of the three products
+      let fs ← decOptBool fs
+      let vss ← vss.mapM decOptStrList
+      let tf := vss.foldl (fun tf v => tfUpdate tf v fs) []
+      pure (jok (jtf tf))
+  | _, _ => none
 
 end SshAudit.Driver
